@@ -11,6 +11,8 @@ Arguments Ok {A} a. Arguments Err {A} e.
 Definition bind {A B} (r : res A) (f : A -> res B) : res B :=
   match r with Ok a => f a | Err e => Err e end.
 Notation "x <- r ;; k" := (bind r (fun x => k)) (at level 61, r at next level, right associativity).
+Notation "' p <- r ;; k" := (bind r (fun x => match x with p => k end))
+  (at level 61, p pattern, r at next level, right associativity).
 
 Definition err_code (e : err) : Z :=
   match e with EValue => 1 | EType => 2 | EKey => 3 | EComparison => 4 | ECalibration => 5
